@@ -134,12 +134,17 @@ class P(Prop):
             any(not c.fanout(f"{i}.{p}") for i, bb in c.blackboxes.items() for p in bb.output_set)
         tienames = any(n in ("tie_0", "tie_1", "tie_x") for n in c.graph.nodes)
         tag = (":unconnected-pin" if unconn else "") + (":reserved-name" if tienames else "")
+        # K48 (narrow): a plain (unescaped) identifier that contains `$` — legal Verilog, written verbatim, not lexed back
+        dollar = [n for n in c.graph.nodes if "$" in n and not n.startswith("\\")]
         def S(base):
             # a node of the circuit has exactly the name the reader gave one of its expression gates: known finding K29,
             # whatever the symptom
             return "roundtrip:net-captures-synthetic" if captured else base + tag
         if o != "ok":
-            self.fail("search", S(f"readback-raised-{o}"), f"reading the written text back raised {o}", case)
+            sig = S(f"readback-raised-{o}")
+            if dollar and o == "other:UnexpectedCharacters" and not captured:
+                sig = "readback-raised-other:UnexpectedCharacters:dollar-identifier"
+            self.fail("search", sig, f"reading the written text back raised {o}", case)
             return
         if c2.name != c.name or c2.inputs() != c.inputs() or c2.outputs() != c.outputs():
             self.fail("search", S("roundtrip-io"), f"name/io changed: {c2.name} {sorted(c2.inputs())} {sorted(c2.outputs())}", case)
@@ -175,6 +180,14 @@ class P(Prop):
                 if v[n] != w[n]:
                     self.fail("search", S("roundtrip-value"), f"{n}: {v[n]} before, {w[n]} after under {a}", case)
                     return
+
+    def corpus(self):
+        # K48 (known): `a$1` is a legal Verilog identifier; the writer emits it verbatim, the reader's lexer rejects `$`
+        c = cg.Circuit("k48")
+        c.add("a$1", "input")
+        c.add("b", "input")
+        c.add("o", "and", fanin=["a$1", "b"], output=True)
+        self.oracle(c, False)
 
     def search(self, n):
         for i in range(n):
